@@ -436,11 +436,13 @@ func main() {
 	}
 	p.deadline = deadline
 
-	// ---- jobs: the families with 100 KB..10 MiB inputs first (longest jobs), then the others in family order
+	// ---- jobs: the families with 100 KB..10 MiB inputs first (longest jobs), then the baseline-derived and datagram
+	// families, the exhaustive short-string families last (so that the internal deadline, if it is ever reached, cuts those)
 	var jobs []jobSpec
-	for pass := 0; pass < 2; pass++ {
+	for pass := 0; pass < 3; pass++ {
 		for _, f := range fams {
-			if f.heavy != (pass == 0) {
+			short := f.name == "all-bytes-le2" || strings.HasPrefix(f.name, "alphabet")
+			if want := map[bool]int{true: 0, false: 1}[f.heavy]; !short && want != pass || short && pass != 2 {
 				continue
 			}
 			if p.stats[f.name] == nil {
@@ -615,14 +617,14 @@ func main() {
 			"alloc: TotalAlloc delta <= 64*len(packet)+65536, measured around batches of <=96 evaluations and again around every single evaluation of a batch that exceeds the smallest budget in it",
 	}
 	run.Finish(cov, []string{
-		"bounded-exhaustive, not exhaustive over all byte strings up to 10 MiB: complete for length <= 2, complete over the stated alphabets up to length 4 (6 in thorough), single (thorough: also pairs of) byte mutations of the stated baselines, and the stated parameterised hostile families",
+		"bounded-exhaustive, not exhaustive over all byte strings up to 10 MiB: complete for length <= 2, complete over the stated alphabets up to length 5 (7 in thorough), single (thorough: also pairs of) byte mutations of the stated baselines, and the stated parameterised hostile families",
 		"the termination oracle is a wall-clock backstop (the code under test is not instrumented, so there is no step counter): 10 s + 3 s/MiB for work that takes microseconds to about a second, and a hit counts only if the same evaluation, re-run alone in a fresh worker with six times the limit, does not return either",
 		"an allocation is counted when runtime.MemStats.TotalAlloc grows during the call in a GOMAXPROCS=1 worker whose logger is off; allocations of the harness inside the measured region (context, request struct, response classification) are part of the 64 KiB constant",
 		"out-of-memory is judged under an address-space limit of 4 GiB per worker; a machine with less memory dies earlier, one without limit later or not at all",
 		"the server seam is driven at Protocol.Invoke / InvokeTimeout with exactly the byte slices tcphandler.go (complete frame, consistent length prefix) and udphandler.go (datagram as received) pass; sockets are not involved",
 		"AdapterProxy.Recv is called the way tarsclient.go does (`go Recv(pkg)`: own goroutine, no recover of the harness); panics it recovers itself are counted in recv_recovered_panics and not reported as violations, since the process survives and the panicking decode is reported at ResponseUnpack/ReadFrom",
 		"Dispatch is driven for adminf.notify, logf.logger, statf.reportMicMsg and statf.reportSampleMsg (string, vector<string>, map<struct,struct>+bool, vector<struct> arguments) in the three protocol versions; the other generated dispatchers come from the same generator code",
-		"fixed-array members (index overrun by an announced length) do not occur in tars/protocol/res and are not covered here",
+		"fixed-array members do not occur in tars/protocol/res: they are covered through checks/c05/c05arrays/C05Arrays.tars, which run.sh hands to the working-tree tars2go on every invocation (if the generator cannot be built the entries are left out and run.sh says so)",
 	})
 }
 
